@@ -118,6 +118,45 @@ pub fn main() -> i32 {
         checks += 1;
     }
 
+    // ---- 3b. hand-assembled RDATA for types that have no dnspython vector (layouts transcribed from the RFC texts) ----
+    {
+        let lbl = |s: &str| s.as_bytes().to_vec();
+        let n = |parts: &[&str]| -> NameM { parts.iter().map(|p| lbl(p)).collect() };
+        let name_bytes = |parts: &[&str]| -> Vec<u8> { let mut v = Vec::new(); for p in parts { v.push(p.len() as u8); v.extend_from_slice(p.as_bytes()); } v.push(0); v };
+        let mut v: Vec<(u16, Vec<u8>, Vec<F>)> = Vec::new();
+        // RFC 3403 section 6.1 style: NAPTR 100 10 "S" "SIP+D2U" "" _sip._udp.example.com.
+        v.push((35, [&[0u8, 100, 0, 10, 1, b'S', 7][..], b"SIP+D2U", &[0], &name_bytes(&["_sip", "_udp", "example", "com"])].concat(),
+            vec![F::Int(100), F::Int(10), F::Bytes(b"S".to_vec()), F::Bytes(b"SIP+D2U".to_vec()), F::Bytes(vec![]), F::Name(n(&["_sip", "_udp", "example", "com"]))]));
+        // RFC 8659 section 4.1.1: CAA 0 issue "ca1.example.net"
+        v.push((257, [&[0u8, 5][..], b"issue", b"ca1.example.net"].concat(), vec![F::Int(0), F::Bytes(b"issue".to_vec()), F::Bytes(b"ca1.example.net".to_vec())]));
+        // RFC 8659: critical flag, tag "tbs", value "Unknown"
+        v.push((257, [&[128u8, 3][..], b"tbs", b"Unknown"].concat(), vec![F::Int(128), F::Bytes(b"tbs".to_vec()), F::Bytes(b"Unknown".to_vec())]));
+        // RFC 1035 3.3.7: MINFO RMAILBX EMAILBX
+        v.push((14, [name_bytes(&["admin", "example"]), name_bytes(&["errors", "example"])].concat(), vec![F::Name(n(&["admin", "example"])), F::Name(n(&["errors", "example"]))]));
+        // RFC 1035 3.3.1: CNAME; 3.3.3 MB; 3.3.6 MG; 3.3.8 MR; 3.3.12 PTR; MD/MF: a single domain name
+        for t in [5u16, 7, 8, 9, 12, 3, 4] {
+            v.push((t, name_bytes(&["target", "example", "org"]), vec![F::Name(n(&["target", "example", "org"]))]));
+        }
+        // RFC 2782: SRV 0 5 5060 sipserver.example.com.
+        v.push((33, [&[0u8, 0, 0, 5, 0x13, 0xC4][..], &name_bytes(&["sipserver", "example", "com"])].concat(), vec![F::Int(0), F::Int(5), F::Int(5060), F::Name(n(&["sipserver", "example", "com"]))]));
+        // RFC 1035 3.3.13: SOA MNAME RNAME SERIAL REFRESH RETRY EXPIRE MINIMUM
+        v.push((6, [name_bytes(&["ns", "example"]), name_bytes(&["root", "example"]), vec![0x77, 0x35, 0x94, 0x01, 0, 0, 0x1C, 0x20, 0, 0, 0x0E, 0x10, 0, 0x12, 0x75, 0, 0, 0, 0x0E, 0x10]].concat(),
+            vec![F::Name(n(&["ns", "example"])), F::Name(n(&["root", "example"])), F::Int(0x77359401), F::Int(7200), F::Int(3600), F::Int(1209600), F::Int(3600)]));
+        // RFC 6891 6.1.2: OPT RDATA = {OPTION-CODE, OPTION-LENGTH, OPTION-DATA}*
+        v.push((41, vec![0, 10, 0, 2, 0xAB, 0xCD, 0, 8, 0, 0], vec![F::Pairs(vec![(10, vec![0xAB, 0xCD]), (8, vec![])])]));
+        for (t, bytes, want) in v {
+            match decode_rdata(&bytes, 0, bytes.len(), t) {
+                Ok((f, _)) if f == want => {
+                    if encode_rdata_plain(t, &Rd::Fields(f)) != bytes {
+                        return fail(format!("hand-assembled type {} vector does not re-encode identically", t));
+                    }
+                    checks += 1;
+                }
+                other => return fail(format!("hand-assembled type {} vector decodes as {:?}", t, other.map(|x| x.0))),
+            }
+        }
+    }
+
     // ---- 4. hand-assembled RFC 6891 message ---------------------------------------------------------------
     {
         let b: &[u8] = &[
